@@ -23,6 +23,8 @@ let parse_aop s =
 let rec int_of_nat = function O -> 0 | S k -> 1 + int_of_nat k
 
 let pccount = Array.make 40 0
+let d2_reported = ref 0
+let d2_suppressed = ref 0
 
 (* ------------------------------------------------------------------------------------ *)
 (* the oracle: no torn, no ghost, notice, exact at quiescence -- on R lines + positions   *)
@@ -187,9 +189,15 @@ let mk_sys toks =
           if ms = s && ml = l && a = "0" then None
           else Some (Printf.sprintf "model snap %s len %s again 0, impl snap %s len %s again %s" ms ml s l a)
         | _ -> Some "short F line");
-      spec = (fun _rets final -> oracle capi aprogs final) }
+      spec = (fun _rets final ->
+        match oracle capi aprogs final with
+        | Some m when String.length m >= 20 && String.sub m 0 20 = "class=crashed-remove" ->
+          (* the known crash window of remove(): report the first few per process, count the rest *)
+          if !d2_reported < 2 then begin incr d2_reported; Some m end else begin incr d2_suppressed; None end
+        | r -> r) }
   | _ -> failwith "unknown case header"
 
 let () =
   run mk_sys (fun toks -> match toks with cap :: prog :: _ -> cap ^ " " ^ prog | _ -> "");
-  Array.iteri (fun i n -> Printf.printf "OPCOUNT pc%02d %d\n" i n) pccount
+  Array.iteri (fun i n -> Printf.printf "OPCOUNT pc%02d %d\n" i n) pccount;
+  Printf.printf "EXTRA crashed_remove_failures_not_listed %d\n" !d2_suppressed
